@@ -40,6 +40,12 @@ func c17Sample(emitted, cfg string, nRandom int, rng *rand.Rand) ([]c17Gen, erro
 	total := 0
 	must := func(g *c17Gen) bool {
 		n := c17Bytes(g.N)
+		if g.T == 2 { // the fault tree: the requests whose target is a directory there
+			return g.O == "image" || g.G == 0 || n == "" || n == ".gr" || n == "d" || n == "d.gr" || n == "e" || n == "e.gr"
+		}
+		if len(n) > 0 && len(n) <= 4 && strings.IndexByte("\xc4\xc5\xe2\xe3\xef\xf0", n[0]) >= 0 { // (bytes, not runes)
+			return true // a single multi-byte UTF-8 character
+		}
 		return g.O == "image" || g.O == "exec" || g.G == 0 || len(strings.TrimSuffix(n, ".gr")) <= 1 || c17Always[n]
 	}
 	scan := func(fn func(i int, line []byte) error) error {
@@ -581,6 +587,33 @@ func c17BinaryCases(dir, cfg string, hdr *c17Hdr, cases []c17Case, chroot bool, 
 	return out, nil
 }
 
+var c17ReAutoTmp = regexp.MustCompile(`^\.grol[0-9]+\.tmp$`)
+
+// c17JudgeAuto judges a binary run made with auto-load/auto-save left on: confinement only (./.gr is rewritten by the
+// REPL itself whatever the program does).  In the fault tree ./.gr is a directory and the REPL's auto-save fails at its
+// rename step; the temporary file it then leaves (./.grol<digits>.tmp) is the REPL's, not the effect of a
+// program-supplied name: it is counted (second result) and reported, not judged.
+func c17JudgeAuto(cfg, cwd string, cs *c17Case, res *c17Res) (fails []c17Failure, autoTmpLeft int) {
+	for _, o := range res.Obs {
+		for _, p := range append(append(append([]string{}, o.C...), o.M...), o.D...) {
+			if c17Allowed("restricted", cwd, p) { // the REPL's own ./.gr is a plain .gr name
+				continue
+			}
+			if u := c17U(p); cs.T == 2 && strings.HasPrefix(u, cwd+"/") && c17ReAutoTmp.MatchString(u[len(cwd)+1:]) {
+				autoTmpLeft++
+				continue
+			}
+			fails = append(fails, c17Failure{"write-outside-allowed-set", fmt.Sprintf("grol %v -c (auto-save on) step %d touched %s", c17Flags(cfg), o.I, p)})
+		}
+		for _, p := range o.R {
+			if !c17Allowed("restricted", cwd, p) {
+				fails = append(fails, c17Failure{"read-outside-allowed-set", fmt.Sprintf("grol %v -c (auto-load on) step %d evaluated %s", c17Flags(cfg), o.I, p)})
+			}
+		}
+	}
+	return
+}
+
 func c17BinaryPass(c *Ctx, hdr *c17Hdr, chroot bool, samples map[string][]c17Gen, limit int) {
 	bin := filepath.Join(c.Scratch(), "grolbin", "grol")
 	t0 := time.Now()
@@ -668,22 +701,17 @@ func c17BinaryPass(c *Ctx, hdr *c17Hdr, chroot bool, samples map[string][]c17Gen
 					c.Infra(err)
 					return
 				}
+				tmpLeft := 0
 				for i := 0; i < n; i++ {
 					c17Count(c, fmt.Sprintf("binary-auto|%s|%d|%s|%v", cfg, gens[i].T, gens[i].O, gens[i].N), true)
-					for _, o := range ares[i].Obs {
-						for _, p := range append(append(append([]string{}, o.C...), o.M...), o.D...) {
-							if !c17Allowed("restricted", cwd, p) { // the REPL's own ./.gr is a plain .gr name
-								c.Fail("write-outside-allowed-set", fmt.Sprintf("grol %v -c (auto-save on) step %d touched %s", c17Flags(cfg), o.I, p),
-									map[string]any{"config": cfg, "hdr": hdr, "gens": []c17Gen{gens[i]}, "chroot": chroot, "binary": true})
-							}
-						}
-						for _, p := range o.R {
-							if !c17Allowed("restricted", cwd, p) {
-								c.Fail("read-outside-allowed-set", fmt.Sprintf("grol %v -c (auto-load on) step %d evaluated %s", c17Flags(cfg), o.I, p),
-									map[string]any{"config": cfg, "hdr": hdr, "gens": []c17Gen{gens[i]}, "chroot": chroot, "binary": true})
-							}
-						}
+					fails, left := c17JudgeAuto(cfg, cwd, &cases[i], &ares[i])
+					tmpLeft += left
+					for _, f := range fails {
+						c.Fail(f.Sig, f.What, map[string]any{"config": cfg, "hdr": hdr, "gens": []c17Gen{gens[i]}, "chroot": chroot, "binary": true, "auto": true})
 					}
+				}
+				if tmpLeft > 0 {
+					c.Note("binary %s with auto-save on, fault tree (./.gr is a directory): the REPL's own auto-save (repl.AutoSave: CreateTemp + Rename) left %d ./.grol*.tmp files behind; not a C17 verdict (auto-save is not driven by a program-supplied name), reported to the integrator", cfg, tmpLeft)
 				}
 			}
 		}(cfg)
